@@ -39,6 +39,9 @@ fn template(path: &str, n: u32) -> String {
     if n == 0 {
         return format!("local x = = 1 -- broken {}\n", path);
     }
+    if path == ENTRY && n >= 100 {
+        return format!("-- entry without requires v{n}\nreturn 1 + {n}\n", n = n);
+    }
     match path {
         ENTRY => format!(
             "local m1 = require(\"../../lib/m1\")\nlocal b = require(\"../sub/b\")\nlocal m3 = require(\"../../lib/m3\")\n-- entry v{n}\nreturn m1.v + b + m3.v + (1 + {n})\n",
@@ -180,6 +183,43 @@ fn options() -> Options {
         .with_configuration_at(CONFIG)
 }
 
+/// disk mode: (directory of the worker's project, directory of the fresh runs, whether the output
+/// folder exists before the first run)
+static DISK: std::sync::Mutex<Option<(PathBuf, PathBuf, bool)>> = std::sync::Mutex::new(None);
+
+fn disk_mode() -> Option<(PathBuf, PathBuf, bool)> {
+    DISK.lock().unwrap_or_else(|p| p.into_inner()).clone()
+}
+
+fn make_resources() -> Resources {
+    if disk_mode().is_some() {
+        Resources::from_file_system()
+    } else {
+        Resources::from_memory()
+    }
+}
+
+/// directories below the output folder (disk mode), relative paths
+fn output_dirs() -> Vec<String> {
+    let mut dirs = Vec::new();
+    let mut stack = vec![PathBuf::from(OUTPUT)];
+    while let Some(dir) = stack.pop() {
+        if !dir.is_dir() {
+            continue;
+        }
+        dirs.push(path_text(&dir));
+        if let Ok(entries) = std::fs::read_dir(&dir) {
+            for entry in entries.flatten() {
+                if entry.path().is_dir() {
+                    stack.push(entry.path());
+                }
+            }
+        }
+    }
+    dirs.sort();
+    dirs
+}
+
 fn output_tree(resources: &Resources) -> BTreeMap<String, String> {
     resources
         .walk(OUTPUT)
@@ -280,18 +320,37 @@ fn dump_json(tree: &WorkerTree) -> Value {
 
 /// the model-independent oracle: a fresh run over the user's files into an empty output folder
 fn fresh_run(user_files: &BTreeMap<String, String>) -> (Value, BTreeMap<String, String>) {
-    let resources = Resources::from_memory();
+    let disk = disk_mode();
+    if let Some((_, fresh_dir, _)) = disk.as_ref() {
+        let _ = std::fs::remove_dir_all(fresh_dir);
+        std::fs::create_dir_all(fresh_dir).expect("fresh dir");
+        std::env::set_current_dir(fresh_dir).expect("cwd");
+    }
+    let resources = make_resources();
     for (path, content) in user_files {
         if !Path::new(path).starts_with(OUTPUT) {
-            resources.write(path, content).expect("memory write");
+            resources.write(path, content).expect("write");
         }
     }
     let result = catch_unwind(AssertUnwindSafe(|| darklua_core::process(&resources, options())));
+    let dirs = if disk.is_some() { output_dirs() } else { Vec::new() };
+    let outcome = fresh_outcome(result, &resources, dirs);
+    if let Some((case_dir, _, _)) = disk.as_ref() {
+        std::env::set_current_dir(case_dir).expect("cwd");
+    }
+    outcome
+}
+
+fn fresh_outcome(
+    result: std::thread::Result<Result<WorkerTree, darklua_core::DarkluaError>>,
+    resources: &Resources,
+    dirs: Vec<String>,
+) -> (Value, BTreeMap<String, String>) {
     match result {
         Ok(Ok(tree)) => {
-            let out = output_tree(&resources);
+            let out = output_tree(resources);
             (
-                json!({ "out": tree_json(&out), "state": dump_json(&tree), "error": Value::Null }),
+                json!({ "out": tree_json(&out), "state": dump_json(&tree), "error": Value::Null, "dirs": dirs }),
                 out,
             )
         }
@@ -325,10 +384,22 @@ struct World {
 
 impl World {
     fn new() -> Self {
-        let resources = Resources::from_memory();
-        let user_files = initial_files();
+        let disk = disk_mode();
+        let mut user_files = initial_files();
+        if let Some((case_dir, _, preexisting)) = disk.as_ref() {
+            let _ = std::fs::remove_dir_all(case_dir);
+            std::fs::create_dir_all(case_dir).expect("case dir");
+            std::env::set_current_dir(case_dir).expect("cwd");
+            if *preexisting {
+                // a foreign empty directory that must survive
+                std::fs::create_dir_all("out/emptykeep").expect("mkdir");
+            } else {
+                user_files.retain(|path, _| !Path::new(path).starts_with(OUTPUT));
+            }
+        }
+        let resources = make_resources();
         for (path, content) in &user_files {
-            resources.write(path, content).expect("memory write");
+            resources.write(path, content).expect("write");
         }
         World {
             resources,
@@ -493,6 +564,9 @@ fn run_history(history: &[Ev], verbose: bool) -> Value {
         }
         let out = output_tree(&world.resources);
         step["out"] = tree_json(&out);
+        if disk_mode().is_some() {
+            step["dirs"] = json!(output_dirs());
+        }
         if *event == Ev::Process {
             // oracle (a): fresh run over the same final inputs and configuration
             let (fresh, fresh_out) = fresh_run(&world.user_files);
@@ -731,8 +805,38 @@ fn main() {
                 emit(run_with_limit(history, limit));
             }
         }
+        "disk" => {
+            // dl-c10 disk --root DIR : fixed histories on a real directory, output folder
+            // pre-existing or not; observes the directories too (ancestor pruning of clean_files)
+            let root = PathBuf::from(arg_value(&args, "--root").expect("--root DIR"));
+            assert!(root.starts_with("/tmp"), "the scratch directory must be under /tmp");
+            let histories = [
+                "R:src/sub/deep/c.lua P",
+                "R:src/sub/deep/c.lua R:src/sub/b.lua E:src/app/main.lua:100 P",
+                "A:src/fresh/f.lua:2 P R:src/fresh/f.lua P",
+                "A:src/fresh/deep/er/f.lua:2 P R:src/fresh/deep/er/f.lua P",
+                "A:src/fresh/f.lua:2 A:src/fresh/g.lua:3 P R:src/fresh/f.lua P R:src/fresh/g.lua P",
+                "R:src/a.lua A:src/a.lua:5 P",
+                "R:src/sub/deep/c.lua A:src/sub/deep/c.lua:7 P",
+                "D:src/sub/deep P",
+                "E:src/a.lua:2 P R:src/a.lua P A:src/a.lua:4 P",
+                "C:4 P R:src/sub/deep/c.lua C:1 P",
+            ];
+            for preexisting in [true, false] {
+                for history in histories {
+                    *DISK.lock().unwrap() = Some((root.join("case"), root.join("fresh"), preexisting));
+                    let mut value = run_with_limit(parse_history(history), limit);
+                    value["preexisting_output"] = json!(preexisting);
+                    std::env::set_current_dir("/").ok();
+                    emit(value);
+                }
+            }
+            *DISK.lock().unwrap() = None;
+            let _ = std::fs::remove_dir_all(root.join("case"));
+            let _ = std::fs::remove_dir_all(root.join("fresh"));
+        }
         _ => {
-            eprintln!("usage: dl-c10 run|enum|random ...");
+            eprintln!("usage: dl-c10 run|enum|random|disk ...");
             std::process::exit(2);
         }
     }
